@@ -69,6 +69,11 @@ func (e *Exec) funcEnv(fr *Frame, st *State) *Env {
 	for n, v := range e.siteVars {
 		env.vars[n] = v
 	}
+	for n, v := range e.forallVars {
+		if _, ok := env.vars[n]; !ok {
+			env.vars[n] = v
+		}
+	}
 	// source-level locals recorded by DebugRef (unique definitions only)
 	for name, v := range e.debugVars(fr) {
 		if _, ok := env.vars[name]; !ok {
@@ -108,6 +113,9 @@ func (e *Exec) debugVars(fr *Frame) map[string]Val {
 			id, ok := d.Expr.(*ast.Ident)
 			if !ok {
 				continue
+			}
+			if obj := d.Object(); obj != nil && !types.Identical(obj.Type(), d.X.Type()) {
+				continue // the identifier used in a converting position (e.g. boxed into an interface)
 			}
 			if prev, ok := seen[id.Name]; ok && prev != d.X {
 				multi[id.Name] = true
@@ -353,6 +361,12 @@ func (e *Exec) execCall(fr *Frame, st *State, in ssa.CallInstruction, c *ssa.Cal
 					fr.vals[val] = v
 				}
 				cenv := e.funcEnv(fr, st)
+				for i, a := range c.Args {
+					if _, isAddr := fr.addrs[a]; !isAddr {
+						cenv.vars[fmt.Sprintf("arg%d", i)] = e.val(fr, a, st)
+					}
+				}
+				cenv.vars["ret"] = v
 				for _, lm := range sec.After {
 					e.instLemma(cenv, lm, st)
 				}
@@ -401,6 +415,11 @@ func (e *Exec) execCall1(fr *Frame, st *State, in ssa.CallInstruction, c *ssa.Ca
 			for _, sec := range e.fc.Calls {
 				if sec.Callee == cs.name && sec.N == cs.k {
 					cenv := e.funcEnv(fr, st)
+					for i, a := range c.Args {
+						if _, isAddr := fr.addrs[a]; !isAddr {
+							cenv.vars[fmt.Sprintf("arg%d", i)] = e.val(fr, a, st)
+						}
+					}
 					for _, lm := range sec.Lemmas {
 						e.instLemma(cenv, lm, st)
 					}
@@ -593,9 +612,58 @@ func (e *Exec) callModular(fr *Frame, st *State, in ssa.Instruction, fc *FuncCon
 		qenv.vars[n] = v
 	}
 	e.bindResults(qenv, fc, results)
-	e.evalWitnesses(qenv, fc)
-	for _, c := range fc.Ensures {
-		e.S.Assert(sImp(st.reach, e.evalBool(qenv, c.Expr)))
+	// instantiations of the callee's universally quantified ghost variables
+	var insts []map[string]Val
+	if len(fc.Forall) > 0 {
+		if cs, ok := e.callOrd[in]; ok && fr.top && e.fc != nil {
+			for _, sec := range e.fc.Calls {
+				if sec.Callee == cs.name && sec.N == cs.k {
+					cenv := e.funcEnv(fr, pre)
+					for _, one := range sec.Inst {
+						m := map[string]Val{}
+						for _, b := range one {
+							m[b.Name] = e.evalExpr(cenv, b.Expr)
+						}
+						insts = append(insts, m)
+					}
+				}
+			}
+		}
+		// default: pass the caller's own variable of the same name through
+		def := map[string]Val{}
+		for _, q := range fc.Forall {
+			if v, ok := e.forallVars[q.Name]; ok {
+				def[q.Name] = v
+			}
+		}
+		if len(def) == len(fc.Forall) {
+			insts = append(insts, def)
+		}
+	}
+	if len(fc.Forall) == 0 {
+		insts = []map[string]Val{{}}
+	}
+	for _, m := range insts {
+		ienv := qenv.child()
+		oenv := penv.child()
+		for _, q := range fc.Forall {
+			k, t := e.specType(fc.PkgPath, q.Type)
+			if v, ok := m[q.Name]; ok {
+				ienv.vars[q.Name] = castTo(v, k, t)
+				oenv.vars[q.Name] = castTo(v, k, t)
+			}
+		}
+		ienv.old = oenv
+		ienv.soft, oenv.soft = true, true
+		e.softly(func() { e.evalWitnesses(ienv, fc) })
+		for _, c := range fc.Ensures {
+			if !closedUnder(c.Expr, ienv) {
+				continue
+			}
+			c := c
+			// clauses over the callee's local names (its own witnesses) are not visible to callers
+			e.softly(func() { e.S.Assert(sImp(st.reach, e.evalBool(ienv, c.Expr))) })
+		}
 	}
 	switch len(results) {
 	case 0:
@@ -710,4 +778,64 @@ func (e *Exec) execDynamicCall(fr *Frame, st *State, in ssa.CallInstruction, c *
 
 func parseExprSafe(src string) (ast.Expr, error) {
 	return parserParseExpr(src)
+}
+
+// closedUnder: every free identifier of the expression is bound (clauses over
+// quantified variables without an instantiation are skipped).
+func closedUnder(x ast.Expr, env *Env) bool {
+	ok := true
+	ast.Inspect(x, func(n ast.Node) bool {
+		switch n := n.(type) {
+		case *ast.SelectorExpr:
+			// only the base can be a variable
+			ast.Inspect(n.X, func(m ast.Node) bool {
+				if id, isId := m.(*ast.Ident); isId {
+					if env.e.P.CS.isForallName(id.Name) && !hasVar(env, id.Name) {
+						ok = false
+					}
+				}
+				return true
+			})
+			return false
+		case *ast.Ident:
+			if env.e.P.CS.isForallName(n.Name) && !hasVar(env, n.Name) {
+				ok = false
+			}
+		}
+		return true
+	})
+	return ok
+}
+
+func (cs *Contracts) isForallName(n string) bool {
+	if cs.forallNames == nil {
+		cs.forallNames = map[string]bool{}
+		for _, fc := range cs.Funcs {
+			for _, q := range fc.Forall {
+				cs.forallNames[q.Name] = true
+			}
+		}
+		for _, ic := range cs.Ifaces {
+			for _, fc := range ic.Methods {
+				for _, q := range fc.Forall {
+					cs.forallNames[q.Name] = true
+				}
+			}
+		}
+	}
+	return cs.forallNames[n]
+}
+
+func (e *Exec) softly(f func()) {
+	depth := len(e.readTrace)
+	defer func() {
+		if r := recover(); r != nil {
+			if _, ok := r.(softFail); ok {
+				e.readTrace = e.readTrace[:depth]
+				return
+			}
+			panic(r)
+		}
+	}()
+	f()
 }
